@@ -10,3 +10,4 @@ def run(chk):
     CC.id_contracts(chk, "C08")
     CC.operation_methods(chk, "C08", want=("C08",))
     X.item_in_child_context(chk, "C08")
+    X.handlers_dispatch(chk, "C08")
